@@ -108,7 +108,19 @@ def variable_domain_signature(spec: Any) -> Dict[str, Any]:
         }
     if name == "SequenceSpec":
         values = list(spec.values)
-        head, tail = values[:3], values[-3:]
+
+        def _json_safe(value: Any) -> Any:
+            # The signature ends up in JSON documents (node semantic id, inspection
+            # payload, trace header); values such as numpy integers are not
+            # serializable and are recorded by their repr, like the digest below.
+            try:
+                json.dumps(value)
+                return value
+            except (TypeError, ValueError):
+                return repr(value)
+
+        head = [_json_safe(v) for v in values[:3]]
+        tail = [_json_safe(v) for v in values[-3:]]
         try:
             digest = _sha256_json(values)
         except TypeError:
